@@ -5,7 +5,7 @@ import (
 	"regexp"
 )
 
-var patRewriteCodepoints = regexp.MustCompile(`(?P<replaced_with_slash_x>\\u)(?P<code>[0-9A-F]{4})`)
+var patRewriteCodepoints = regexp.MustCompile(`(?P<replaced_with_slash_x>\\u)(?P<code>[0-9A-Fa-f]{4})`)
 
 // See https://pkg.go.dev/regexp/syntax
 func intoGoRegexp(re string) string {
